@@ -532,6 +532,10 @@ func (fc *funcContext) ConstIndex(value LValue) int {
 	ctype := value.Type()
 	for i, lv := range fc.Proto.Constants {
 		if lv.Type() == ctype && lv == value {
+			// 0 and -0 compare equal but are different constants (1/-0 is -inf)
+			if n, ok := lv.(LNumber); ok && math.Signbit(float64(n)) != math.Signbit(float64(value.(LNumber))) {
+				continue
+			}
 			return i
 		}
 	}
